@@ -367,6 +367,31 @@ func init() {
 				}
 			}
 		}
+		// fixed shrink / grow / shrink-less schedules over a table of six 36-octet entries (the deepest shrink is not the last
+		// one), through the size setter, through the limit setter, and mixed
+		{
+			var fill []string
+			for k := 0; k < 6; k++ {
+				fill = append(fill, fmt.Sprintf("f%s.%s.0", hx([]byte(fmt.Sprintf("k%d", k))), hx([]byte(fmt.Sprintf("v%d", k)))))
+			}
+			tail := []string{"f" + hx([]byte("k7")) + "." + hx([]byte("v7")) + ".0", "f" + hx([]byte("k8")) + "." + hx([]byte("v8")) + ".0"}
+			for _, abc := range [][3]int{{40, 4096, 300}, {36, 4096, 2048}, {0, 4096, 1000}, {40, 300, 200}, {72, 4096, 500}, {40, 4096, 80}} {
+				for _, pat := range []string{"mmm", "llm", "lml", "mlm", "lll"} {
+					ops := append([]string{}, fill...)
+					for j, v := range abc {
+						ops = append(ops, fmt.Sprintf("%c%d", pat[j], v))
+					}
+					if pat[2] == 'l' {
+						ops = append(ops, fmt.Sprintf("m%d", abc[2]))
+					}
+					ops = append(ops, tail...)
+					line := "ops=" + strings.Join(ops, ",")
+					c.tag("encops:fixed-resize-schedule")
+					c.op("hpenc " + line)
+					c.op("hprt " + line) // oracle
+				}
+			}
+		}
 		// resize bursts: a table populated with small entries (36..60 octets each), then SEVERAL SetMaxDynamicTableSize calls
 		// between two header blocks — shrink / grow / shrink again, non-monotone, values between one and a few entries — so
 		// that the smallest size of the interval matters (RFC 7541 section 4.2: it must be signalled before the final one)
